@@ -9,6 +9,6 @@ cd $wt
 if ! git apply $d 2>/dev/null; then echo "$name: PATCH-DOES-NOT-APPLY"; exit 0; fi
 if ! go build ./... 2>/dev/null; then echo "$name: DOES-NOT-COMPILE"; exit 0; fi
 suite=$(go test -mod=mod -vet=off -count=1 ./... 2>&1 | grep -c '^FAIL\|^--- FAIL\|panic:')
-out=$(/verif/bin/muxlint -repo $wt -evidence /tmp/ref-ev-$$ -property all -obligations 2>&1)
+out=$(${BIN:-/verif/bin/muxlint} -repo $wt -evidence /tmp/ref-ev-$$ -property all -obligations 2>&1)
 alarms=$(echo "$out" | grep -E '^  FAIL|CHECKER-ERROR' | cut -c1-260)
 if [ -z "$alarms" ]; then echo "$name: silent (suite_fail=$suite)"; else echo "$name: ALARM (suite_fail=$suite)"; echo "$alarms" | sed 's/^/      /'; fi
